@@ -210,7 +210,9 @@ where
                         .map_err(CodecError::DecompressFailure)?;
                 }
 
-                let batch = decode_message_batch(bytes).map_err(CodecError::DecodeFailure)?;
+                let mut batch = decode_message_batch(bytes).map_err(CodecError::DecodeFailure)?;
+                // Messages are handed out with `pop`, i.e. from the tail: keep the publisher's order
+                batch.reverse();
                 self.message_batch = Some(batch);
                 self.poll_next(cx)
             }
